@@ -86,7 +86,20 @@ fn pword(rng: &mut Rng, first: bool) -> PWord {
     // hyphenated parts
     while rng.chance(1, 8) {
         let fl = rng.range(1, 6);
-        let (p, n) = plain_part(rng, false, Some(fl));
+        let (p, n) = if rng.chance(1, 4) {
+            // a part spelled like a keyword (`mother-in-law`, `rock-and-roll`)
+            let all = kw::all_words();
+            let k = loop {
+                let k = rng.pick(all).to_string();
+                if !k.contains('\'') {
+                    break k;
+                }
+            };
+            let n = k.chars().count();
+            (gen::random_case_word(rng, &k), n)
+        } else {
+            plain_part(rng, false, Some(fl))
+        };
         let spacing = *rng.pick(&["-", " -", "- ", " - "]);
         text.push_str(spacing);
         text.push_str(&p);
